@@ -279,5 +279,6 @@ func TestC19(t *testing.T) {
 	}
 	c19Binary(ev)
 	parallelCases(vlib.Scale(9, 36), 5, func(i int) { c19EndToEnd(ev, i) })
+	c19ManyHosts(ev, vlib.DriverMemory)
 	finish(t, ev)
 }
